@@ -44,7 +44,7 @@ theorem kTr_ne_kTE : nameEq kTrailer kTransferEncoding = false := by decide
 /-- the header list after `dechunkRewrite`, spelled out -/
 def rewritten (hs trs : List Header) (bodyLen : Nat) : List Header :=
   let hs1 := hs ++ trs.filter fun h => !isFraming h.name
-  let te := (headerTokens hs1 kTransferEncoding).dropLast
+  let te := ((headerTokens hs1 kTransferEncoding).dropLast).filter (fun c => !c.isEmpty)
   let hs2 := if te.isEmpty then removeHeader hs1 kTransferEncoding
              else setHeader hs1 kTransferEncoding (joinWith [COMMA, SP] te)
   removeHeader (addHeader hs2 ⟨kContentLength, natToDec bodyLen⟩) kTrailer
@@ -85,10 +85,10 @@ theorem C12_no_trailer (hs trs : List Header) (n : Nat) :
     hasHeader (rewritten hs trs n) kTrailer = false := by
   unfold rewritten; exact removeHeader_not_has _ _
 
-/-- C12: Transfer-Encoding lists the original codings minus the final one (one header, joined with ", "),
-    or is gone when nothing remains; trailer fields named Transfer-Encoding have no influence -/
+/-- C12: Transfer-Encoding lists the original codings minus the final one — empty list elements, which carry no
+    coding, are dropped — (one header, joined with ", "), or is gone when nothing remains; trailer fields named Transfer-Encoding have no influence -/
 theorem C12_transfer_encoding (hs trs : List Header) (n : Nat) :
-    let ts := (headerTokens hs kTransferEncoding).dropLast
+    let ts := ((headerTokens hs kTransferEncoding).dropLast).filter (fun c => !c.isEmpty)
     (ts = [] → hasHeader (rewritten hs trs n) kTransferEncoding = false) ∧
     (ts ≠ [] → headerMultiValue (rewritten hs trs n) kTransferEncoding = [joinWith [COMMA, SP] ts]) := by
   intro ts
